@@ -361,7 +361,7 @@ package mail
 //@ func mail.ContentType.String
 //@   ensures[C02:id] result == c
 //@ func mail.Charset.String
-//@   ensures[C02:id] result == c
+//@   ensures[C02,C08:id] result == c
 //@ func mail.Header.String
 //@   ensures[C02,C10:id] result == h
 // header folding cannot end the header block: what writeHeader hands to writeString before the final CRLF is
@@ -1207,3 +1207,27 @@ package mail
 // header says base64 - never because of a default or of the part before it (mime/multipart drops the header of a
 // quoted-printable part after decoding it: a part without the header must be stored as read)
 //@ at mail.parseEMLMultipart mail.handleEMLMultiPartBase64Encoding#1 before assert[C10:decoded-by-its-own-header] ("Content-Transfer-Encoding" in multiPart.Header) && len(multiPart.Header["Content-Transfer-Encoding"]) >= 1 && foldeq(multiPart.Header["Content-Transfer-Encoding"][0], "base64")
+
+// C20 (continued): the error ResetWithSMTPClient returns for a refused RSET wraps the server's reply in the way the
+// classification functions look for it (errors.Unwrap gives the reply error): code, temporariness and enhanced status
+// code of the verdict are then those of the reply
+//@ ghost field rseterr ref
+//@ at mail.Client.ResetWithSMTPClient entry ghost[C20:g] world.rseterr = nil
+//@ at mail.Client.ResetWithSMTPClient smtp.Client.Reset#1 after ghost[C20:g] world.rseterr = r0
+//@ func mail.Client.ResetWithSMTPClient (client) (err)
+//@   ensures[C20:reset-error-wraps-the-reply] world.rseterr != nil ==> (err != nil && unwrapof(err) == world.rseterr)
+
+// C06 (continued): adding an address keeps the ones that are there - addAddr hands the existing addresses back to
+// SetAddrHeader in their canonical rendering (Address.String, which net/mail parses back to the same address), in
+// order, followed by the new one
+//@ func mail.Msg.addAddr (header, addr) (err)
+//@   requires[C06:wf] m != nil
+//@   loop 1 invariant[C06:existing-addresses-kept] 0 <= rangeindex + 1 && rangeindex + 1 <= ((header in m.addrHeader) ? len(m.addrHeader[header]) : 0) && len(addresses) == rangeindex + 1 && (forall j :: 0 <= j && j < len(addresses) ==> addresses[j] == addrstr(m.addrHeader[header][j]))
+//@ at mail.Msg.addAddr mail.Msg.SetAddrHeader#1 before assert[C06:existing-addresses-kept] len(arg2) == ((header in m.addrHeader) ? len(m.addrHeader[header]) : 0) + 1
+//@ at mail.Msg.addAddr mail.Msg.SetAddrHeader#1 before assert[C06:new-address-last] arg2[len(arg2) - 1] == addr
+//@ at mail.Msg.addAddr mail.Msg.SetAddrHeader#1 before assert[C06:existing-addresses-in-order] forall j :: 0 <= j && j < len(arg2) - 1 ==> arg2[j] == addrstr(m.addrHeader[header][j])
+
+// C08 (continued): the description of a part is encoded the same way at every depth - with the writer's charset (the
+// signing render has the part at depth 0, the final render at depth 1: two different encoded-words would be two
+// different entities)
+//@ at mail.msgWriter.writePart mime.WordEncoder.Encode#* before assert[C08:description-encoded-the-same-at-every-depth] arg1 == mw.charset
